@@ -61,7 +61,8 @@ NOLANG = {
     'meson.options': (
         "option('o', type: 'string', value: 'd0')\n"
         "option('n', type: 'integer', value: 3)\n"
-        "option('f', type: 'feature', value: 'auto')\n"),
+        "option('f', type: 'feature', value: 'auto')\n"
+        "option('m', type: 'string', value: 'md')\n"),
     'subprojects/sp/meson.build': "project('sp', version: '0.1')\nmessage('sp so=' + get_option('so'))\n",
     'subprojects/sp/meson.options': "option('so', type: 'string', value: 'sd')\n",
 }
@@ -114,6 +115,8 @@ def gen_cases(seed: int, quick: bool) -> T.List[dict]:
     xs = ['reconfigure', 'wipe', 'configure'] + ([] if quick else ['setup_again'])
     for hi, ln in enumerate(lengths):
         hist = gen_history(rnd, ln)
+        if hi % 2 == 1:
+            hist[0][1] = dict(hist[0][1], **{NATIVE_KEY: '1'})
         for x in xs:
             cases.append({'variant': 'nolang', 'pre_dir': None, 'history': hist,
                           'x': [x, {} if x == 'wipe' else xopts(2)]})
@@ -127,8 +130,17 @@ def gen_cases(seed: int, quick: bool) -> T.List[dict]:
     return cases
 
 
+NATIVE_KEY = '@native'       # pseudo option of a setup command: configure with the machine file written next to the source dir
+NATIVE_INI = ("[built-in options]\ndefault_library = 'static'\nlibdir = 'lib/fromnative'\n\n"
+              "[project options]\nm = 'fromnative'\n")
+
+
 def argv_for(cmd: str, opts: T.Dict[str, str], B: str, S: str) -> T.List[str]:
-    d = ['-D%s=%s' % (k, v) for k, v in opts.items()]
+    d = ['-D%s=%s' % (k, v) for k, v in opts.items() if k != NATIVE_KEY]
+    if opts.get(NATIVE_KEY):
+        # values that come from a machine file live only in the persisted configuration (and the recorded command line
+        # names the file): a killed command must not lose them either
+        d = ['--native-file', os.path.join(os.path.dirname(S), 'native.ini')] + d
     if cmd in ('setup', 'setup_again'):
         return ['setup'] + d + [B, S]
     if cmd == 'reconfigure':
@@ -253,6 +265,7 @@ class Site:
         self.pre_digest = ''
         os.makedirs(root)
         mesondrv.write_tree(self.S, CVARIANT if case['variant'] == 'c' else NOLANG)
+        mesondrv.write_tree(root, {'native.ini': NATIVE_INI})
 
     def run_history(self, inproc: bool) -> None:
         for cmd, opts in self.case['history']:
